@@ -190,6 +190,32 @@ def _doc_forms() -> None:
 
 _doc_forms()
 
+# ---- docstring TYPE expressions: every container with too few / too many / odd arguments, per structured style ------------
+DOC_TYPES = [
+    "dict", "dict[str]", "dict[str, int]", "dict[str, int, float]", "Mapping[str]", "typing.Mapping[str]", "Mapping[str, int]", "list", "list[int]", "list[int, str]", "List[int]",
+    "set", "set[int]", "set[int, str]", "frozenset[int]", "tuple", "tuple[int]", "tuple[int, ...]", "tuple[()]", "Optional", "Optional[int]", "Optional[int, str]", "Union", "Union[int]",
+    "Union[int, str, None]", "Callable", "Callable[[int], str]", "Callable[..., int]", "Callable[int]", "Callable[[], None]", "Literal", "Literal[1]", "Literal['a', 1, None]", "Final[int]", "Final",
+    "Sequence", "Sequence[int, str]", "Collection[int]", "Iterable[int]", "Iterator[int]", "Any", "None", "int or str", "int | None", "int | str | None", "{'a', 'b'}", "list of int", "array-like",
+    "1", "'quoted'", "a.b.C", "SomeUnknown[int]", "type[int]", "int, optional", "bool, default=True", "list[list[dict[str]]]", "dict[str, dict[str]]", "C@", "list[C@]", "dict[C@]",
+]
+
+
+def _doctype_forms() -> None:
+    for k, ty in enumerate(DOC_TYPES):
+        numpy = f"Summary.\n\n    Parameters\n    ----------\n    a : {ty}\n        A.\n    b : {ty}\n        B.\n\n    Returns\n    -------\n    r : {ty}\n        R.\n    "
+        google = f"Summary.\n\n    Args:\n        a ({ty}): A.\n        b ({ty}): B.\n\n    Returns:\n        {ty}: R.\n    "
+        rest = f"Summary.\n\n    :param a: A\n    :type a: {ty}\n    :param b: B\n    :type b: {ty}\n    :returns: R\n    :rtype: {ty}\n    "
+        attrs_numpy = f"Summary.\n\n    Attributes\n    ----------\n    x : {ty}\n        X.\n    "
+        for style, d, ad in (("NUMPYDOC", numpy, attrs_numpy), ("GOOGLE", google, f"Summary.\n\n    Attributes:\n        x ({ty}): X.\n    "), ("REST", rest, "Summary.\n    ")):
+            body = (
+                f'class C@:\n    """{ad}"""\n\n    x = 1\n\n    def m(self, a, b: int):\n        """{d.replace(chr(10) + "    ", chr(10) + "        ")}"""\n        return a\n\n\n'
+                f'def f@(a, b: int = 1):\n    """{d}"""\n    return a\n'
+            )
+            form(f"doctype:{style}:{k:02d}:{ty}", body)
+
+
+_doctype_forms()
+
 
 import re as _re
 
